@@ -1,8 +1,9 @@
 (* C10 -- lemmas about the model of RestrictedLinearSystem and of the boundary-index code. *)
-From Coq Require Import List Arith Bool ZArith Lia Ring Permutation Sorted.
+From Coq Require Import List Arith Bool ZArith Lia Ring Permutation Sorted QArith Field.
 From Verif.lib Require Import Slice.
 From Verif.C10 Require Import Model.
 Import ListNotations.
+Local Open Scope nat_scope.
 
 (* ------------------------------------------------------------------------- *)
 (* generic facts about compress                                              *)
@@ -738,3 +739,228 @@ Proof.
 Qed.
 
 End ClassProofs.
+
+(* ------------------------------------------------------------------------- *)
+(* slice_indices: every dof of the slice exactly once                         *)
+(* ------------------------------------------------------------------------- *)
+
+Definition valid_mi (shape mi : list nat) : Prop := Forall2 (fun n i => i < n) shape mi.
+
+(* ---- itertools.product ---- *)
+Lemma product_In ls : forall mi, In mi (product ls) <-> Forall2 (fun l i => In i l) ls mi.
+Proof.
+  induction ls as [|l ls IH]; intros mi; simpl.
+  - split.
+    + intros [<-|[]]. constructor.
+    + intros H. inversion H. left. reflexivity.
+  - rewrite in_flat_map. split.
+    + intros [x [Hx Hm]]. apply in_map_iff in Hm. destruct Hm as [t [<- Ht]].
+      constructor; auto. apply IH, Ht.
+    + intros H. inversion H as [|? i ? t Hi Ht]; subst. exists i. split; auto.
+      apply in_map, IH, Ht.
+Qed.
+
+Lemma NoDup_map_cons {A} (x : A) l : NoDup l -> NoDup (map (cons x) l).
+Proof.
+  induction 1 as [|y l Hy Hn IH]; simpl; constructor; auto.
+  intros H. apply in_map_iff in H. destruct H as [z [E Hz]]. injection E; intros; subst. contradiction.
+Qed.
+
+Lemma NoDup_flat_map_disjoint {A B} (f : A -> list B) l :
+  NoDup l -> (forall x, In x l -> NoDup (f x)) ->
+  (forall x y b, In x l -> In y l -> In b (f x) -> In b (f y) -> x = y) ->
+  NoDup (flat_map f l).
+Proof.
+  induction 1 as [|a l Ha Hn IH]; intros H1 H2; simpl; [constructor|].
+  assert (Hd : forall b, In b (f a) -> ~ In b (flat_map f l)).
+  { intros b Hb Hin. apply in_flat_map in Hin. destruct Hin as [y [Hy Hby]].
+    assert (a = y) by (apply (H2 a y b); simpl; auto). subst. contradiction. }
+  assert (Hl : NoDup (flat_map f l)).
+  { apply IH; [intros; apply H1; simpl; auto | intros x y b ? ? ? ?; apply (H2 x y b); simpl; auto]. }
+  assert (Ha' : NoDup (f a)) by (apply H1; simpl; auto).
+  clear - Hd Hl Ha'. induction (f a) as [|b fb IHf]; simpl; auto.
+  inversion Ha'; subst. constructor.
+  - rewrite in_app_iff. intros [H|H]; [contradiction|]. apply (Hd b); simpl; auto.
+  - apply IHf; auto. intros c Hc. apply Hd. simpl. auto.
+Qed.
+
+Lemma product_NoDup ls : Forall (@NoDup nat) ls -> NoDup (product ls).
+Proof.
+  induction 1 as [|l ls Hl Hls IH]; simpl.
+  - constructor; [intros []|constructor].
+  - apply NoDup_flat_map_disjoint; auto.
+    + intros x _. apply NoDup_map_cons, IH.
+    + intros x y b _ _ Hx Hy. apply in_map_iff in Hx, Hy.
+      destruct Hx as [t [<- _]]. destruct Hy as [t' [E _]]. injection E; auto.
+Qed.
+
+(* ---- the per-axis ranges ---- *)
+Definition axok (k ax idx : nat) (n i : nat) : Prop := if Nat.eqb k ax then i = idx else i < n.
+
+Fixpoint axall (k ax idx : nat) (shape mi : list nat) : Prop :=
+  match shape, mi with
+  | [], [] => True
+  | n :: shape', i :: mi' => axok k ax idx n i /\ axall (S k) ax idx shape' mi'
+  | _, _ => False
+  end.
+
+Lemma axdofs_In ax idx : forall shape k flip mi,
+  Forall2 (fun l i => In i l) (axdofs_aux k ax idx shape flip) mi <-> axall k ax idx shape mi.
+Proof.
+  induction shape as [|n shape IH]; intros k flip mi; simpl.
+  - split.
+    + intros H. inversion H. exact I.
+    + destruct mi; [constructor|intros []].
+  - destruct mi as [|i mi].
+    + split; [intros H; inversion H|intros []].
+    + split.
+      * intros H. inversion H as [|? ? ? ? Hi Ht]; subst. split; [|apply (IH (S k) (tl flip)), Ht].
+        unfold axok. destruct (Nat.eqb k ax).
+        -- destruct Hi as [<-|[]]. reflexivity.
+        -- destruct (match flip with [] => false | f :: _ => f end).
+           ++ apply in_rev, in_seq in Hi. lia.
+           ++ apply in_seq in Hi. lia.
+      * intros [Hi Ht]. constructor; [|apply IH, Ht].
+        unfold axok in Hi. destruct (Nat.eqb k ax).
+        -- left. auto.
+        -- destruct (match flip with [] => false | f :: _ => f end).
+           ++ apply -> in_rev. apply in_seq. lia.
+           ++ apply in_seq. lia.
+Qed.
+
+Lemma axdofs_NoDup ax idx : forall shape k flip, Forall (@NoDup nat) (axdofs_aux k ax idx shape flip).
+Proof.
+  induction shape as [|n shape IH]; intros k flip; simpl; constructor; auto.
+  destruct (Nat.eqb k ax).
+  - constructor; [intros []|constructor].
+  - destruct (match flip with [] => false | f :: _ => f end).
+    + apply NoDup_rev, seq_NoDup.
+    + apply seq_NoDup.
+Qed.
+
+(* axall <-> valid multi-index with coordinate idx on axis ax *)
+Lemma axall_valid ax idx : forall shape k mi,
+  k <= ax -> ax - k < length shape -> idx < nth (ax - k) shape 0 ->
+  (axall k ax idx shape mi <-> valid_mi shape mi /\ nth (ax - k) mi 0 = idx).
+Proof.
+  unfold valid_mi.
+  induction shape as [|n shape IH]; intros k mi Hk Hax Hidx; simpl in *; [lia|].
+  destruct mi as [|i mi].
+  - split; [intros []|intros [H _]; inversion H].
+  - unfold axok. destruct (Nat.eqb_spec k ax) as [->|Hne].
+    + rewrite Nat.sub_diag in *. simpl in *.
+      (* the remaining axes are all different from ax *)
+      assert (Hrest : forall shape' k' mi', ax < k' -> (axall k' ax idx shape' mi' <-> Forall2 (fun n i => i < n) shape' mi')).
+      { clear. induction shape' as [|n s IHs]; intros k' mi' Hlt; destruct mi' as [|i t]; simpl.
+        - split; constructor.
+        - split; [intros []|intros H; inversion H].
+        - split; [intros []|intros H; inversion H].
+        - unfold axok. replace (Nat.eqb k' ax) with false by (symmetry; apply Nat.eqb_neq; lia).
+          rewrite IHs by lia. split.
+          + intros [H1 H2]. constructor; auto.
+          + intros H. inversion H; subst. auto. }
+      rewrite Hrest by lia. split.
+      * intros [-> H]. split; [constructor; auto|reflexivity].
+      * intros [H E]. inversion H; subst. auto.
+    + replace (ax - k) with (S (ax - S k)) in * by lia. simpl in *.
+      rewrite IH by lia. split.
+      * intros [H1 [H2 H3]]. split; [constructor; auto|exact H3].
+      * intros [H E]. inversion H; subst. auto.
+Qed.
+
+(* ---- ravel is injective on valid multi-indices ---- *)
+Definition prodl (l : list nat) : nat := fold_right Nat.mul 1 l.
+
+Lemma ravel_aux_acc : forall shape mi acc, Forall2 (fun n i => i < n) shape mi ->
+  ravel_aux acc shape mi = acc * prodl shape + ravel_aux 0 shape mi /\ ravel_aux 0 shape mi < prodl shape.
+Proof.
+  induction shape as [|n shape IH]; intros mi acc H; inversion H as [|? i ? t Hi Ht]; subst; simpl.
+  - lia.
+  - destruct (IH t (acc * n + i) Ht) as [E1 B]. destruct (IH t i Ht) as [E2 _].
+    rewrite E1, E2. split; [ring|]. nia.
+Qed.
+
+Lemma ravel_inj : forall shape mi mi', valid_mi shape mi -> valid_mi shape mi' ->
+  ravel shape mi = ravel shape mi' -> mi = mi'.
+Proof.
+  unfold ravel, valid_mi.
+  induction shape as [|n shape IH]; intros mi mi' H H' E;
+    inversion H as [|? i ? t Hi Ht]; inversion H' as [|? i' ? t' Hi' Ht']; subst; auto.
+  simpl in E.
+  destruct (ravel_aux_acc shape t i Ht) as [E1 B1]. destruct (ravel_aux_acc shape t' i' Ht') as [E2 B2].
+  rewrite E1, E2 in E.
+  assert (i = i') by nia. subst. f_equal. apply IH; auto. lia.
+Qed.
+
+Lemma NoDup_map_inj_in {A B} (f : A -> B) l :
+  NoDup l -> (forall x y, In x l -> In y l -> f x = f y -> x = y) -> NoDup (map f l).
+Proof.
+  induction 1 as [|a l Ha Hn IH]; intros Hinj; simpl; constructor.
+  - intros H. apply in_map_iff in H. destruct H as [y [E Hy]].
+    assert (y = a) by (apply Hinj; simpl; auto). subst. contradiction.
+  - apply IH. intros x y Hx Hy. apply Hinj; simpl; auto.
+Qed.
+
+Lemma slice_multi_In ax idx shape flip mi :
+  ax < length shape -> idx < nth ax shape 0 ->
+  (In mi (slice_multi ax idx shape flip) <-> valid_mi shape mi /\ nth ax mi 0 = idx).
+Proof.
+  intros Hax Hidx. unfold slice_multi. rewrite product_In, axdofs_In.
+  pose proof (axall_valid ax idx shape 0 mi) as H. rewrite Nat.sub_0_r in H. apply H; auto. lia.
+Qed.
+
+(* slice_indices lists every dof whose multi-index has coordinate idx on axis ax exactly once,
+   for every shape, axis, index and flip pattern *)
+Lemma slice_indices_face_l ax idx shape flip :
+  ax < length shape -> idx < nth ax shape 0 ->
+  NoDup (slice_indices ax idx shape flip) /\
+  (forall r, In r (slice_indices ax idx shape flip) <->
+             exists mi, valid_mi shape mi /\ nth ax mi 0 = idx /\ r = ravel shape mi).
+Proof.
+  intros Hax Hidx. unfold slice_indices. split.
+  - apply NoDup_map_inj_in.
+    + apply product_NoDup, axdofs_NoDup.
+    + intros x y Hx Hy. apply (slice_multi_In ax idx shape flip) in Hx, Hy; auto.
+      apply ravel_inj; tauto.
+  - intros r. rewrite in_map_iff. split.
+    + intros [mi [<- Hmi]]. apply slice_multi_In in Hmi; auto. exists mi. tauto.
+    + intros [mi [H1 [H2 ->]]]. exists mi. split; auto. apply slice_multi_In; auto.
+Qed.
+
+Lemma slice_indices_z_face_l ax (idx : Z) shape flip :
+  ax < length shape -> (- Z.of_nat (nth ax shape 0%nat) <= idx < Z.of_nat (nth ax shape 0%nat))%Z ->
+  exists l, slice_indices_z ax idx shape flip = Some l /\ NoDup l /\
+    (forall r, In r l <->
+       exists mi, valid_mi shape mi /\ Z.of_nat (nth ax mi 0%nat) = (idx mod Z.of_nat (nth ax shape 0%nat))%Z /\ r = ravel shape mi).
+Proof.
+  intros Hax Hidx. unfold slice_indices_z. set (n := nth ax shape 0) in *.
+  assert (Hw : (0 <= wrap idx n < Z.of_nat n)%Z /\ wrap idx n = (idx mod Z.of_nat n)%Z).
+  { unfold wrap. destruct (idx <? 0)%Z eqn:E.
+    - apply Z.ltb_lt in E. split; [lia|].
+      apply Z.mod_unique with (q := (-1)%Z); [left; lia | lia].
+    - apply Z.ltb_ge in E. split; [lia|]. symmetry. apply Z.mod_small. lia. }
+  destruct Hw as [[H0 H1] Hm].
+  replace (ax <? length shape) with true by (symmetry; apply Nat.ltb_lt; exact Hax).
+  replace (0 <=? wrap idx n)%Z with true by (symmetry; apply Z.leb_le; exact H0).
+  replace (wrap idx n <? Z.of_nat n)%Z with true by (symmetry; apply Z.ltb_lt; exact H1).
+  simpl. eexists. split; [reflexivity|].
+  assert (Hlt : Z.to_nat (wrap idx n) < nth ax shape 0) by (fold n; lia).
+  destruct (slice_indices_face_l ax (Z.to_nat (wrap idx n)) shape flip Hax Hlt) as [Hnd Hin].
+  split; [exact Hnd|]. intros r. rewrite Hin. split; intros [mi [Hv [He Hr]]]; exists mi; repeat split; auto.
+  - rewrite He, <- Hm. lia.
+  - rewrite <- Hm in He. lia.
+Qed.
+
+Local Open Scope Q_scope.
+Lemma solve2_correct c00 c01 c10 c11 g0 g1 :
+  ~ c00 * c11 - c01 * c10 == 0 ->
+  let a := solve2 c00 c01 c10 c11 g0 g1 in
+  c00 * fst a + c01 * snd a == g0 /\ c10 * fst a + c11 * snd a == g1.
+Proof. intros H. unfold solve2. simpl. split; field; exact H. Qed.
+
+(* at the end point of an open knot vector the collocation matrix of value and derivative of
+   the first two basis functions is [[1, 0], [-c, c]] with c = p/(t_{p+1}-t_1) <> 0: the first
+   coefficient is the value, the second value + derivative/c *)
+Lemma solve2_endpoint c g0 g1 : ~ c == 0 ->
+  let a := solve2 1 0 (- c) c g0 g1 in fst a == g0 /\ snd a == g0 + g1 / c.
+Proof. intros H. unfold solve2. simpl. split; field; auto. Qed.
